@@ -14,7 +14,7 @@ import ast
 import re
 
 from sa.astutil import walk_body, walk_local, dotted, norm, callee_attr
-from sa.dispatch import op_branches, tok_consts
+from sa.dispatch import is_single_operand_branch, op_branches, tok_consts
 from sa.optable import OT0, SMT2
 from sa.exprmodel import KINDS
 from sa.repo import AnalysisError
@@ -72,7 +72,7 @@ def run(ck):
     n_br = 0
     for b in op_branches(fn, m, cls, consts=consts):
         n_br += 1
-        unary = any(g.startswith("not(len(args) > 1)") for g in b["guards"])
+        unary = is_single_operand_branch(b)
         asg = [n for st in b["body"] for n in walk_local(st) if isinstance(n, ast.Assign) and norm(n.targets[0]) == "res"]
         for op in b["ops"]:
             key = ("u:" if unary else "b:") + op
